@@ -72,14 +72,18 @@ PROPS = {
                 "(create/modify/rename/delete mixed), delete-user, get-user, login attempts and restarts, with logins/names/passwords "
                 "from pools of awkward byte strings that are legal file names; after every step list-users and the accounts directory "
                 "are compared with a model map, renamed-away/deleted logins are probed with every password ever used, and at the end "
-                "every model login x every password is tried and a fresh account manager is loaded from the directory; "
+                "every model login x every password is tried and a fresh account manager is loaded from the directory; TestC15Burst: 2-5 "
+                "administrators create / set / delete the same logins at the same instant for 4-12 rounds; which request wins is not constrained, "
+                "the listing is taken as reference and the files, a fresh manager and the logins that authenticate must equal it after every round; "
                 "non-trivial = a rename or delete followed by login attempts with the old login, or a restart after >= 3 edits; "
                 "distinct = hash(history)",
         "assumptions": ["edits of accounts with live sessions and renames onto existing logins are excluded by construction (outside the statement)",
                         "names starting with a newline are excluded from the state machine (known finding yaml-leading-newline, decided by TestC15LeadingNewline)"],
-        "quick": {"runs": [{"test": "^TestC15$", "shards": 16, "checks": 50, "timeout": 600},
+        "quick": {"runs": [{"test": "^TestC15$", "shards": 12, "checks": 50, "timeout": 600},
+                           {"test": "^TestC15Burst$", "shards": 4, "checks": 25, "timeout": 600},
                            {"test": "^TestC15LeadingNewline$", "shards": 1, "checks": 30, "timeout": 300}]},
-        "thorough": {"runs": [{"test": "^TestC15$", "shards": 16, "checks": 1500, "timeout": 3400},
+        "thorough": {"runs": [{"test": "^TestC15$", "shards": 12, "checks": 1500, "timeout": 3400},
+                              {"test": "^TestC15Burst$", "shards": 4, "checks": 1500, "timeout": 3400},
                               {"test": "^TestC15LeadingNewline$", "shards": 1, "checks": 300, "timeout": 600}]},
     },
     "C05": {
